@@ -22,7 +22,14 @@ SRun(m) == [a |-> "run", m |-> m]
 \* two machines over one registration, run in both orders and again; then a machine compiled after the runs
 Script(i, o1, o2, f) ==
   <<SReg(i), SCmp(CallOf(i, o1)), SCmp(f), SRun(1), SRun(2), SRun(1), SRun(2), SCmp(CallOf(i, o2)), SRun(3), SRun(2), SRun(1)>>
-Scripts == UNION {{Script(i, o1, o2, f) : f \in Forms(CallOf(i, o2))} : i \in PartialInfos, o1 \in Operands, o2 \in Operands}
+\* a function that consults state outside the tree: the same machine run before and after that state has changed, with constant and
+\* with data-tree operands, and a machine compiled in between
+ExtInfos == {i \in InfoPool : i.beh = "ext"}
+Other == Info("-x", << >>, "n", "const", "typed")
+ExtScript(i, o, f) ==
+  <<SReg(i), SCmp(f), SRun(1), SReg(Other), SRun(1), SCmp(CallOf(i, o)), SRun(2), SReg(Other), SRun(1), SRun(2), SRun(1)>>
+ExtScripts == UNION {{ExtScript(i, o, f) : f \in Forms(CallOf(i, o))} : i \in ExtInfos, o \in Operands}
+Scripts == ExtScripts \cup UNION {{Script(i, o1, o2, f) : f \in Forms(CallOf(i, o2))} : i \in PartialInfos, o1 \in Operands, o2 \in Operands}
 
 SInit == Init /\ script \in Scripts
 Step(s) == CASE s.a = "reg" -> Register(s.batch)
